@@ -248,6 +248,7 @@ pub fn snapshot_model(model: &Model, node: Option<&Node>, opts: &SnapOpts) -> Sn
         // conditional formats in stored order, dxf resolved
         for (k, cf) in ws.conditional_formatting.iter().enumerate() {
             let mut js = serde_json::to_value(&cf.cf_rule).unwrap_or(serde_json::Value::Null);
+            normalise_cf_formulas(&mut js, wb, &ws.name);
             let mut dxf = serde_json::Value::Null;
             if let Some(obj) = js.as_object_mut() {
                 if let Some(id) = obj.remove("dxf_id") {
@@ -418,4 +419,42 @@ pub fn restrict(s: &Snap, keep: impl Fn(&str) -> bool) -> Snap {
         .filter(|(k, _)| keep(facet_of(k)))
         .map(|(k, v)| (k.clone(), v.clone()))
         .collect()
+}
+
+/// Rule formulas are compared modulo the printer's own normalisation
+/// (`0^#VALUE!%` and `0^(#VALUE!%)` are the same rule): every string field named
+/// `formula*` is parsed with the English parser and printed back.
+fn normalise_cf_formulas(js: &mut serde_json::Value, wb: &ironcalc_base::types::Workbook, sheet: &str) {
+    use ironcalc_base::expressions::parser::{new_parser_english, stringify::to_english_string};
+    use ironcalc_base::expressions::types::CellReferenceRC;
+    fn walk(v: &mut serde_json::Value, f: &mut dyn FnMut(&str) -> String) {
+        match v {
+            serde_json::Value::Object(o) => {
+                for (k, x) in o.iter_mut() {
+                    if k.starts_with("formula") || k == "Formula" {
+                        if let serde_json::Value::String(t) = x {
+                            *t = f(t);
+                            continue;
+                        }
+                    }
+                    walk(x, f);
+                }
+            }
+            serde_json::Value::Array(a) => {
+                for x in a {
+                    walk(x, f);
+                }
+            }
+            _ => {}
+        }
+    }
+    let names: Vec<String> = wb.worksheets.iter().map(|w| w.name.clone()).collect();
+    let mut parser = new_parser_english(names, wb.get_defined_names_with_scope(), wb.tables.clone());
+    let ctx = CellReferenceRC { sheet: sheet.to_string(), row: 1, column: 1 };
+    let mut f = |t: &str| -> String {
+        let body = t.strip_prefix('=').unwrap_or(t);
+        let node = parser.parse(body, &ctx);
+        to_english_string(&node, &ctx)
+    };
+    walk(js, &mut f);
 }
